@@ -109,7 +109,7 @@ def _one(job):
             fn = str(getattr(t, "filename", "") or "")
             served[name] = "custom" if tpl is not None and fn.startswith(str(tpl)) else "package"
         proj = pr.project_dir
-        tree = {str(p.relative_to(proj)): p.read_bytes().decode("utf-8") for p in sorted(proj.rglob("*")) if p.is_file()}
+        tree = {str(p.relative_to(proj)): p.read_bytes().decode("latin-1") for p in sorted(proj.rglob("*")) if p.is_file() and ".ruff_cache" not in p.parts}
         return {"S": job[0], "served": served, "tree": tree, "pkg": pr.package_name, "diags": len(errs), "exc": None}
     except Exception as e:  # noqa: BLE001
         import traceback
